@@ -211,6 +211,14 @@ fn atoms() -> Vec<Sx> {
         Sx::Sym("a"),
         Sx::Sym("foo_bar1"),
         Sx::Sym("λx"),
+        // identifiers that are words of other notations: still plain symbols here
+        Sx::Sym("true"),
+        Sx::Sym("false"),
+        Sx::Sym("nil"),
+        Sx::Sym("t"),
+        Sx::Sym("f"),
+        Sx::Sym("null"),
+        Sx::Sym("quote"),
         Sx::QSym("kebab-sym"),
         Sx::QSym("a.b"),
         Sx::Kw(0, "k"),
